@@ -28,8 +28,9 @@ type UnitResult struct {
 	U            *Universe
 }
 
-var anchorRe = regexp.MustCompile(`^(before|after)\s+(call|assign|return)\s*(.*?)(?:#(\d+))?$`)
+var anchorRe = regexp.MustCompile(`^(before|after)\s+(call|assign|return|switch|if|go|defer)\s*(.*?)(?:#(\d+))?$`)
 var loopAnchorRe = regexp.MustCompile(`^loop\s+(\d+)\s+(end)$`)
+var loopAfterRe = regexp.MustCompile(`^(after|before)\s+loop\s+(\d+)$`)
 
 func (x *Unit) numberLoops() {
 	n := 0
@@ -121,6 +122,16 @@ func (x *Unit) resolveAnchors() {
 			sites = append(sites, site{"assign", exprText(v.X), v})
 		case *ast.ReturnStmt:
 			sites = append(sites, site{"return", "", v})
+		case *ast.SwitchStmt:
+			sites = append(sites, site{"switch", "", v})
+		case *ast.TypeSwitchStmt:
+			sites = append(sites, site{"switch", "", v})
+		case *ast.IfStmt:
+			sites = append(sites, site{"if", "", v})
+		case *ast.GoStmt:
+			sites = append(sites, site{"go", "", v})
+		case *ast.DeferStmt:
+			sites = append(sites, site{"defer", "", v})
 		}
 		return true
 	})
@@ -134,6 +145,23 @@ func (x *Unit) resolveAnchors() {
 			for s, o := range x.loopOrd {
 				if o == ord {
 					x.loopEnd[s] = append(x.loopEnd[s], a)
+					x.actionStmt[a] = s
+				}
+			}
+			if x.actionStmt[a] == nil {
+				x.fail(nil, "anchor %q: no such loop", anchor)
+			}
+			continue
+		}
+		if m := loopAfterRe.FindStringSubmatch(anchor); m != nil {
+			ord, _ := strconv.Atoi(m[2])
+			for s, o := range x.loopOrd {
+				if o == ord {
+					if m[1] == "after" {
+						x.after[s] = append(x.after[s], a)
+					} else {
+						x.before[s] = append(x.before[s], a)
+					}
 					x.actionStmt[a] = s
 				}
 			}
@@ -157,7 +185,7 @@ func (x *Unit) resolveAnchors() {
 			if s.kind != kind {
 				continue
 			}
-			if kind != "return" && !(s.text == text || strings.HasSuffix(s.text, "."+text)) {
+			if (kind == "call" || kind == "assign") && !(s.text == text || strings.HasSuffix(s.text, "."+text)) {
 				continue
 			}
 			cnt++
@@ -214,6 +242,15 @@ func (x *Unit) runAction(st *State, a *AnchorAction) {
 		x.assume(st, c)
 		x.assumedAt = append(x.assumedAt, fmt.Sprintf("%s: assume %s: %s", x.FU.Name, a.Clause.Label, a.Clause.Src))
 	case "ghost":
+		if x.pass == 1 {
+			defer func() {
+				if r := recover(); r != nil {
+					if _, ok := r.(unsupportedErr); !ok {
+						panic(r)
+					}
+				}
+			}()
+		}
 		so, ok := x.ghostSorts[a.Var]
 		if !ok {
 			x.fail(node, "ghost variable %s not declared", a.Var)
@@ -237,12 +274,59 @@ func (x *Unit) runAction(st *State, a *AnchorAction) {
 	}
 }
 
+// Verify runs the unit twice: the first pass only discovers the heap/trace components that exist, so that the
+// second pass can havoc all of them at loop heads (a component first touched inside a loop body would otherwise
+// keep its pre-loop value at the loop head).
 func (x *Unit) Verify() (res *UnitResult) {
+	x.pass = 1
+	first := x.verifyOnce()
+	if first.Err != "" {
+		return first
+	}
+	x.resetForSecondPass()
+	x.pass = 2
+	return x.verifyOnce()
+}
+
+func (x *Unit) resetForSecondPass() {
+	x.assumes = nil
+	x.obls = nil
+	x.compAt = map[string]Term{}
+	x.epochCtr = 0
+	x.epochOrigins = map[int][]origin{}
+	x.havocParent = map[int]int{}
+	x.epochAlloc = map[int]Term{}
+	x.loopOrd = map[ast.Stmt]int{}
+	x.before = map[ast.Node][]*AnchorAction{}
+	x.after = map[ast.Node][]*AnchorAction{}
+	x.loopEnd = map[ast.Node][]*AnchorAction{}
+	x.actionStmt = map[*AnchorAction]ast.Node{}
+	x.warnings = nil
+	x.deferCtr = 0
+	x.inlineDepth = 0
+	x.inlineStack = nil
+	x.nameCtr = map[string]int{}
+	x.lets = map[string]Term{}
+	x.seenStack, x.idxStack, x.rkStack = nil, nil, nil
+	x.callOrd = map[string]int{}
+	x.closureBind = map[types.Object]*ast.FuncLit{}
+	x.usedActions = map[*AnchorAction]bool{}
+	x.usedLoops = map[string]bool{}
+	x.isParam = map[types.Object]bool{}
+	x.bvCtr = 0
+	x.assumedAt = nil
+	x.modStack = nil
+	x.newErrs, x.newCtxs = nil, nil
+	x.U.fresh = 0
+	x.loopStmtStack = nil
+}
+
+func (x *Unit) verifyOnce() (res *UnitResult) {
 	res = &UnitResult{Unit: x.FU.Name, Pkg: x.FU.Pkg.Name, U: x.U}
 	defer func() {
 		if r := recover(); r != nil {
 			if ue, ok := r.(unsupportedErr); ok {
-				res.Err = ue.msg
+				res.Err = fmt.Sprintf("%s (pass %d)", ue.msg, x.pass)
 				res.Obls = x.obls
 				res.Assumes = x.assumes
 				return
@@ -315,6 +399,8 @@ func (x *Unit) Verify() (res *UnitResult) {
 				}
 				v := env.eval(e)
 				x.set(st, "gh:"+g.Name, v)
+			} else if so.Kind != KArray {
+				x.set(st, "gh:"+g.Name, x.U.Zero(so))
 			}
 		}
 		for _, r := range c.Requires {
@@ -355,6 +441,9 @@ func (x *Unit) Verify() (res *UnitResult) {
 		for _, en := range c.Ensures {
 			env := x.unitEnv(normal, nil)
 			env.paramOld = true
+			if x.pass == 1 {
+				continue
+			}
 			cond := env.boolOf(en.Expr)
 			x.oblige(normal, "post", en.Label, en.Tags, cond, en.Src, x.FU.Body)
 		}
@@ -366,7 +455,12 @@ func (x *Unit) Verify() (res *UnitResult) {
 				x.oblige(panicking, "panicpost", en.Label, en.Tags, cond, en.Src, x.FU.Body)
 			}
 			if c.NoPanic {
-				x.oblige(panicking, "nopanic", "no_panic_escapes", x.tagsOr(c.SafetyTags), False, "no panic escapes this function", x.FU.Body)
+				var sites []string
+				for k := range x.panicSites {
+					sites = append(sites, k)
+				}
+				sort.Strings(sites)
+				x.oblige(panicking, "nopanic", "no_panic_escapes", x.tagsOr(c.SafetyTags), False, "no panic escapes this function; panic sources: "+strings.Join(sites, "; "), x.FU.Body)
 			}
 		}
 		// unused contract parts are errors (anchored code vanished)
